@@ -94,12 +94,54 @@ def rule_fid_shape(ctx: Ctx) -> None:
     ctx.touch(m, f)
     r = [x for x in ast.walk(f) if isinstance(x, ast.Return)]
     p = func_params(f)
-    t = norm(r[0].value) if r else ""
-    if t in (f"np.abs(inner_product({p[0]}, {p[1]})) ** 2", f"abs(inner_product({p[0]}, {p[1]})) ** 2"):
-        ctx.ok("fid.shape", m, r[0], what="fidelity = |<a|b>|^2")
-    else:
-        ctx.fail("fid.shape", m, f, f"stabilizer fidelity returns `{t}` instead of |inner_product(a, b)|^2", func="fidelity",
+    t = norm(r[-1].value) if r else ""
+    defs_ = {}
+    for a_ in ast.walk(f):
+        if isinstance(a_, ast.Assign) and len(a_.targets) == 1 and isinstance(a_.targets[0], ast.Name):
+            defs_[a_.targets[0].id] = a_.value
+
+    def res(e, d=0):
+        while isinstance(e, ast.Name) and e.id in defs_ and d < 4:
+            e, d = defs_[e.id], d + 1
+        return e
+
+    def is_ip(e):
+        e = res(e)
+        return isinstance(e, ast.Call) and (call_attr(e) or getattr(e.func, "id", "")) == "inner_product" and sorted(norm(x) for x in e.args) == sorted(p[:2])
+
+    def is_abs_ip(e):
+        e = res(e)
+        return isinstance(e, ast.Call) and (call_name(e) or "") in ("np.abs", "abs", "np.absolute") and len(e.args) == 1 and is_ip(e.args[0])
+
+    def is_sq(e):
+        e = res(e)
+        if isinstance(e, ast.BinOp) and isinstance(e.op, ast.Pow) and isinstance(e.right, ast.Constant) and e.right.value == 2:
+            return is_abs_ip(e.left) or is_ip(e.left) and False
+        if isinstance(e, ast.BinOp) and isinstance(e.op, ast.Mult):
+            return (is_abs_ip(e.left) and is_abs_ip(e.right)) or (is_ip(e.left) and isinstance(res(e.right), ast.Call) and "conj" in norm(res(e.right)) and is_ip(res(e.right).args[0] if res(e.right).args else res(e.right).func.value))
+        if isinstance(e, ast.Call) and (call_name(e) or "") == "np.square" and len(e.args) == 1:
+            return is_abs_ip(e.args[0])
+        if isinstance(e, ast.Call) and (call_name(e) or "") in ("np.real", "float", "np.abs", "abs") and len(e.args) == 1:
+            return is_sq(e.args[0])
+        if isinstance(e, ast.Attribute) and e.attr == "real":
+            return is_sq(e.value)
+        return False
+    rets_ = [x for x in r if x.value is not None]
+    trunc = [c for c in calls_in(f) if isinstance(c.func, ast.Name) and c.func.id == "int" and c.args
+             and any(isinstance(y, ast.Call) and "log" in (call_name(y) or "") for y in ast.walk(c.args[0]))]
+    if rets_ and all(is_sq(x.value) or (isinstance(x.value, ast.Constant) and x.value.value in (0, 0.0)) for x in rets_) and any(is_sq(x.value) for x in rets_):
+        ctx.ok("fid.shape", m, r[-1], what="fidelity = |<a|b>|^2")
+    elif any(is_abs_ip(x.value) or is_ip(x.value) for x in rets_):
+        ctx.fail("fid.shape", m, r[-1], f"stabilizer fidelity returns `{t}`: the overlap is not squared (fidelity = |inner_product(a, b)|^2)", func="fidelity",
                  construct=f"fidelity: returns {t[:80]}")
+    elif trunc:
+        ctx.fail("fid.shape", m, trunc[0], f"stabilizer fidelity rebuilds its value from `{short(trunc[0])}`: int() truncates towards zero, and 2*log2(1/sqrt2) "
+                 f"is -0.9999999999999999 in floating point, so fidelity 1/2 is reported as 1", func="fidelity", construct="fidelity: int() of a float logarithm")
+    elif not any(is_ip(y) for x in rets_ for y in ast.walk(x.value)) and not any(is_ip(v) for v in defs_.values()):
+        ctx.fail("fid.shape", m, f, f"stabilizer fidelity returns `{t}`, which does not derive from inner_product(a, b)", func="fidelity",
+                 construct=f"fidelity: returns {t[:80]}")
+    else:
+        raise AnalysisError(f"fidelity: cannot relate `{t[:80]}` to |inner_product(a, b)|^2")
     ip = repo.anchor(METRIC, "inner_product")
     ctx.touch(m, ip)
     # second state is canonicalised; first goes through inverse_circuit (which canonicalises)
@@ -294,6 +336,7 @@ def _hoist(src: str) -> str:
 
 
 KNOCKOUTS = [
+    Knockout("fidelity-exponent-truncated", METRIC, sub_once("    return np.abs(inner_product(tableau1, tableau2)) ** 2", "    overlap = np.abs(inner_product(tableau1, tableau2))\n    if overlap == 0:\n        return 0.0\n    return 2.0 ** int(2 * np.log2(overlap))"), "fid.shape", "int() of a float logarithm"),
     Knockout("inverse-circuit-z-elimination-swapped", "graphiq/backends/stabilizer/functions/stabilizer.py", sub_once("                tableau = tab_row_sum(tableau, j, k)\n", "                tableau = tab_row_sum(tableau, k, j)\n"), "elim.direction", "inverse_circuit"),
     Knockout("prim-g-z-branch", "graphiq/backends/stabilizer/functions/linalg.py", sub_once("        return x2 * (1 - 2 * z2)\n", "        return x2 * (2 * z2 - 1)\n"), "prim.g-table", "g_function"),
     Knockout("prim-rowsum-sign-from-low-bit", "graphiq/backends/stabilizer/functions/linalg.py", sub_once("    r_vector[target_row] = int(phases / 2)\n", "    r_vector[target_row] = phases % 2\n"), "prim.row-sum", "upper bit"),
